@@ -52,6 +52,30 @@ for xml, p in procs:
     except Exception as ex:
         print("shard failed:", xml, ex, open(xml.replace(".xml", ".log")).read()[-500:])
 missing = sorted(stable - passed)
+# tests that draw unseeded random data fail now and then on the untouched tree too (see DESIGN section 6): a test that is
+# missing is re-run, with its file, up to two more times and counts as passing when it passes in one of them
+retried = []
+for attempt in range(2):
+    if not missing or len(missing) > 10:
+        break
+    fs = sorted({os.path.join(d, "qutip/tests", m.split("::")[0].split(".Test")[0].replace(".", "/") + ".py") for m in missing})
+    fs = [f for f in fs if os.path.exists(f)]
+    if not fs:
+        break
+    xml = os.path.join(tmp, f"retry{attempt}.xml")
+    subprocess.run(["/venv/bin/python", "-m", "pytest", "-q", "-p", "no:cacheprovider", "--timeout=900", f"--junitxml={xml}"] + fs,
+                   cwd=d, env=env, stdout=subprocess.DEVNULL, stderr=subprocess.STDOUT)
+    try:
+        for tc in ET.parse(xml).getroot().iter("testcase"):
+            nm = norm(f"{tc.get('classname')}::{tc.get('name')}")
+            if nm in missing and not any(c.tag in ("failure", "error", "skipped") for c in tc):
+                passed.add(nm)
+                retried.append(nm)
+    except Exception as ex:
+        print("retry failed:", ex)
+    missing = sorted(stable - passed)
+for r in retried:
+    print("  PASSED ON RETRY:", r)
 print(f"stable_pass={len(stable)} passed_now={len(passed)} missing={len(missing)}")
 print("sample passed:", sorted(passed)[:3])
 for m in missing[:40]:
